@@ -3,16 +3,19 @@
 
 #include <forward_list>
 #include <iterator>
+#include <algorithm>
 #include <list>
+#include <set>
 #include <vector>
 
 #include "../mon/elem.hpp"
 
 namespace vf {
 
-enum RangeKind { RK_PTR = 0, RK_RA, RK_LIST, RK_FWD, RK_INPUT, RK_MOVE, RK_PROTO, RK_VECIT, RK_REV, RK_N };
+enum RangeKind { RK_PTR = 0, RK_RA, RK_LIST, RK_FWD, RK_INPUT, RK_MOVE, RK_PROTO, RK_VECIT, RK_REV, RK_N,
+                 RK_MSET = RK_N };  // set engines only: the iterators of a std::multiset (the type of std::set<T, AnyCompare>::const_iterator as well); delivers the values in (key, payload) order, see multiset_order
 inline const char *rkname(int k) {
-  static const char *n[] = {"ptr", "random_access", "list", "forward_list", "single_pass_input", "move_iterator", "values_of_another_type", "vector_iterator", "reverse_iterator"};
+  static const char *n[] = {"ptr", "random_access", "list", "forward_list", "single_pass_input", "move_iterator", "values_of_another_type", "vector_iterator", "reverse_iterator", "multiset_iterator"};
   return n[k];
 }
 
@@ -88,6 +91,10 @@ struct InIt {
   bool operator!=(const InIt &o) const { return !(*this == o); }
 };
 
+inline void multiset_order(std::vector<Val> &vals) {
+  std::stable_sort(vals.begin(), vals.end(), [](const Val &a, const Val &b) { return a.key != b.key ? a.key < b.key : a.pay < b.pay; });
+}
+
 // Builds harness-owned elements for `vals` and calls f(first, last) with iterators of the requested category.
 // Must be entered with a MonScope active for the element constructions; `f` opens the monitored window itself.
 template <class E, class F>
@@ -114,6 +121,19 @@ void with_range(int kind, const std::vector<Val> &vals, F &&f) {
       f(l.begin(), l.end());
       MonScope m;
       l.clear();
+      break;
+    }
+    case RK_MSET: {
+      // the caller has put `vals` into multiset_order: the multiset hands them out in that order, equivalent / duplicate values included
+      struct ByVal { bool operator()(const E &a, const E &b) const { Val x = EI<E>::val(a), y = EI<E>::val(b); return x.key != y.key ? x.key < y.key : x.pay < y.pay; } };
+      std::multiset<E, ByVal> ms;
+      {
+        MonScope m;
+        for (size_t i = 0; i < vals.size(); ++i) ms.insert(Mk<E>::make(vals[i]));
+      }
+      f(ms.begin(), ms.end());
+      MonScope m;
+      ms.clear();
       break;
     }
     case RK_PROTO: {
